@@ -195,6 +195,19 @@ Theorem delete_refuted_zip_reingest :
 Proof. exact zip_reingest_refuted_p. Qed.
 Print Assumptions delete_refuted_zip_reingest.
 
+(* the keep-set of emptyTrash must be the UNION of the bridge's preserved set and the fragment recount: if the recount
+   REPLACED it (seeded change C09a), one trash holding a zip member and one ref of a shared plain file would delete the
+   shared file under a still-stored sibling; the model (= the code) keeps both the file and the zip *)
+Theorem keep_overwrite_refuted :
+  sharing_visible mixed_state = true
+  /\ fget (fs mixed_state) shared_l = Some 1%N
+  /\ fget (delete_all_overwrite mixed_state (trashed_recs mixed_state) (fs mixed_state)) shared_l = None
+  /\ referenced (empty_trash mixed_state) shared_l = true
+  /\ fget (fs (empty_trash mixed_state)) shared_l = Some 1%N
+  /\ fget (fs (empty_trash mixed_state)) ["zips"; "ab"; "z.zip"] = Some 7%N.
+Proof. exact keep_overwrite_refuted_p. Qed.
+Print Assumptions keep_overwrite_refuted.
+
 (* ---- non-vacuity ---------------------------------------------------------------------------------------------------- *)
 (* a guarded history with a file shared by two refs, a zip with two members and a direct-ingested sentinel file *)
 Example demo_guarded : guarded st0 demo = true.
